@@ -72,6 +72,9 @@ pub fn check(t: &Trace<'_>, out: &mut CaseOut) -> bool {
                                 if pending.contains(&pid) {
                                     owed.push_back(Owed { kind: 5, pid, reason: 0, written_on: None });
                                     out.count("duplicates_suppressed", 1);
+                                    if pending.len() >= 8 {
+                                        out.count("redeliveries_with_a_full_table", 1);
+                                    }
                                     nontrivial = true;
                                 } else if pending.len() < 8 {
                                     pending.push(pid);
